@@ -21,7 +21,7 @@ pub static DEF: PropDef = PropDef {
         "room definitions and rows are replicated to the other instances after every accepted call by directed pulls, so that every caller validates against the same definition the model holds",
         "entity short names of the workload model: 0=Person 1=Pet 2.0=ns.Thing, 0.x = system entities",
     ],
-    cases: |t| t.pick(60, 1500),
+    cases: |t| t.pick(150, 3000),
     shards: |t| t.pick(12, 16),
     case_budget_s: |_| 300,
     min_conclusive: |t| t.pick(20, 500),
@@ -43,7 +43,7 @@ pub fn is_auth_entity(short_name: &str) -> bool {
     matches!(short_name, "0.0" | "0.1" | "0.2" | "0.3")
 }
 
-fn rand_right(rng: &mut StdRng, entity: &str) -> RightSpec {
+pub fn rand_right(rng: &mut StdRng, entity: &str) -> RightSpec {
     let (own, all) = match rng.gen_range(0..6) {
         0 => (false, false),
         1 | 2 => (true, false),
@@ -61,17 +61,17 @@ fn rand_entity(rng: &mut StdRng) -> &'static str {
     ["Person", "Pet", "ns.Thing", "*"][rng.gen_range(0..4)]
 }
 
-struct World {
-    peers: Vec<Peer>,
-    rooms: Vec<RoomHandle>,
-    t: i64,
+pub struct World {
+    pub peers: Vec<Peer>,
+    pub rooms: Vec<RoomHandle>,
+    pub t: i64,
     /// rows known to exist: (id, entity name)
-    rows: Vec<(Uid, &'static str)>,
-    counter: u64,
+    pub rows: Vec<(Uid, &'static str)>,
+    pub counter: u64,
 }
 
 impl World {
-    fn tick(&mut self, ms: i64) {
+    pub fn tick(&mut self, ms: i64) {
         self.t += ms;
         clock_set(self.t);
     }
@@ -81,7 +81,7 @@ impl World {
     }
     /// replicate both rooms (definition and rows) from `from` to every other peer, and back, so
     /// that every instance holds the same definition and the same rows
-    async fn replicate(&self, from: usize) -> Result<(), String> {
+    pub async fn replicate(&self, from: usize) -> Result<(), String> {
         for r in &self.rooms {
             for i in 0..self.peers.len() {
                 if i != from {
@@ -200,7 +200,7 @@ fn check_changes(
 }
 
 #[derive(Debug, Clone)]
-enum Call {
+pub enum Call {
     Create { room: usize, ent: &'static str },
     Update { row: usize },
     Move { row: usize, to: usize },
@@ -216,7 +216,7 @@ enum Call {
     NewRoom,
 }
 impl Call {
-    fn kind(&self) -> &'static str {
+    pub fn kind(&self) -> &'static str {
         match self {
             Call::Create { .. } => "create",
             Call::Update { .. } => "update",
@@ -234,7 +234,7 @@ impl Call {
     }
 }
 
-fn pick_row(w: &World, ent: &str, n: usize) -> Option<Uid> {
+pub fn pick_row(w: &World, ent: &str, n: usize) -> Option<Uid> {
     let v: Vec<Uid> = w.rows.iter().filter(|r| r.1 == ent).map(|r| r.0).collect();
     if v.is_empty() {
         None
@@ -243,7 +243,7 @@ fn pick_row(w: &World, ent: &str, n: usize) -> Option<Uid> {
     }
 }
 
-async fn perform(w: &mut World, caller: usize, call: &Call) -> Result<Vec<(Uid, &'static str)>, String> {
+pub async fn perform(w: &mut World, caller: usize, call: &Call) -> Result<Vec<(Uid, &'static str)>, String> {
     let peer = &w.peers[caller];
     let mut created = Vec::new();
     let id_of = |res: &str, ent: &str| -> Option<Uid> {
